@@ -83,6 +83,8 @@ def check(case, rec):
     if cb.get('bk') and 'min_burst_duration' in cb['bk']:
         del cb['bk']['min_burst_duration']
     changed = case_key(cb) != case_key(case)
+    if changed:
+        pipeline.expected_cycles(cb, x)          # the option set without the seconds-based lengths has its own precondition
     base_b = pipeline.analyse(cb, x) if changed else base
     cs = dict(cb, fs=cb['fs'] * c, f_range=[cb['f_range'][0] * c, cb['f_range'][1] * c])
     pipeline.expected_cycles(cs, x)                 # discards when the trusted design rejects the scaled band
